@@ -9,11 +9,16 @@ import (
 	"fmt"
 	"math"
 	"os"
+	"os/exec"
+	"strings"
 
 	"verifharness/lib"
 )
 
 var w *lib.Writer
+
+// forceNTS: every history has NTS clients and at least two clients (race detector run)
+var forceNTS bool
 
 func genVals(r *lib.Rng) []int64 {
 	out := make([]int64, 3)
@@ -64,13 +69,16 @@ func genClients(r *lib.Rng, h *histIn, small bool) int {
 	default:
 		nc = 9 + r.Intn(maxClients-8) // many clients
 	}
+	if forceNTS && nc < 2 {
+		nc = 2 + r.Intn(4)
+	}
 	allEn := r.Intn(3) != 0
-	ntsHist := r.Intn(6) == 0
+	ntsHist := forceNTS || r.Intn(6) == 0
 	for i := 0; i < nc; i++ {
 		h.cfg = append(h.cfg, clientCfg{
 			en:   allEn || r.Intn(4) != 0,
 			hasf: r.Intn(5) != 0,
-			nts:  ntsHist && r.Intn(2) == 0,
+			nts:  ntsHist && (forceNTS && i < 2 || r.Intn(2) == 0),
 		})
 	}
 	return nc
@@ -263,8 +271,14 @@ func genPather(r *lib.Rng, dup bool) *histIn {
 	return h
 }
 
-func main() {
+// Main is the command c15 (race = false) and the command c15race (race = true: built with -race; histories with
+// NTS clients only, run in a child process so that a report of the race detector is an observation).
+func Main(race bool) {
 	a := lib.ParseArgs()
+	if race && os.Getenv("C15RACE_CHILD") == "" {
+		raceParent(a)
+		return
+	}
 	w = lib.NewWriter(a.Out)
 	defer w.Close()
 	setupHist()
@@ -284,6 +298,10 @@ func main() {
 	if a.Tier == "thorough" {
 		nIntn, nSample, nHist, nPather, nDup = 300000, 100000, 30000, 15000, 1500
 	}
+	if race {
+		forceNTS = true
+		nIntn, nSample, nHist, nPather, nDup = 0, 0, raceHists(a.Tier), raceHists(a.Tier)/4, 0
+	}
 	genIntn(r.Fork(), nIntn)
 	genSample(r.Fork(), nSample)
 	hr := r.Fork()
@@ -295,9 +313,6 @@ func main() {
 		runHist("", genPather(pr, false))
 	}
 	dr := r.Fork()
-	if os.Getenv("C15_SKIP_DUPIA") != "" {
-		nDup = 0 // aid for mutation testing: the cases of the known defect (server IA listed twice) are left out
-	}
 	for i := 0; i < nDup && deadlineHits < 2; i++ {
 		runHist("", genPather(dr, true))
 	}
@@ -313,5 +328,63 @@ func main() {
 	}
 	fmt.Printf("NOTE authenticated NTS requests answered by the peer=%d\n", thePeer.ntsOK)
 	fmt.Printf("NOTE histories=%d rounds dropped because their history was already more than 2 s old=%d histories dropped entirely=%d rounds that ran into their 10 s context deadline=%d malformed datagrams at the peer=%d\n",
-		nHist, slowRounds, abandoned, deadlineHits, thePeer.bad)
+		nHist+nPather+nDup, slowRounds, abandoned, deadlineHits, thePeer.bad)
+}
+
+func raceHists(tier string) int {
+	if tier == "thorough" {
+		return 600
+	}
+	return 80
+}
+
+// raceParent runs this binary again as a child under the race detector (first report ends the child) and
+// writes the child's cases plus one case mp.race: args = number of histories asked for, outs = 1 if the race
+// detector reported a data race (0 otherwise) and 1 if the child ended abnormally otherwise.
+func raceParent(a lib.Args) {
+	childOut := a.Out + ".child"
+	cmd := exec.Command(os.Args[0], "-tier", a.Tier, "-seed", fmt.Sprint(a.Seed), "-out", childOut)
+	cmd.Env = append(os.Environ(), "C15RACE_CHILD=1", "GORACE=halt_on_error=1 exitcode=66")
+	var stderr strings.Builder
+	cmd.Stderr = &stderr
+	cmd.Stdout = os.Stdout
+	err := cmd.Run()
+	raced, crashed := 0, 0
+	if strings.Contains(stderr.String(), "WARNING: DATA RACE") {
+		raced = 1
+		lines := strings.Split(stderr.String(), "\n")
+		if len(lines) > 14 {
+			lines = lines[:14]
+		}
+		fmt.Printf("NOTE race detector: %s\n", strings.Join(lines, " | "))
+	} else if err != nil {
+		crashed = 1
+		tail := stderr.String()
+		if len(tail) > 600 {
+			tail = tail[len(tail)-600:]
+		}
+		fmt.Printf("NOTE race run: child ended with %v: %s\n", err, strings.ReplaceAll(tail, "\n", " | "))
+	}
+	w = lib.NewWriter(a.Out)
+	defer w.Close()
+	if raced == 0 && crashed == 0 {
+		copyCases(childOut)
+	}
+	os.Remove(childOut)
+	n := raceHists(a.Tier)
+	w.Case("mp.race", "nt", lib.V(lib.I(int64(n)), lib.I(int64(n/4)), lib.I(int64(a.Seed))), lib.V(lib.I(int64(raced)), lib.I(int64(crashed))))
+}
+
+// copyCases re-emits the case lines of a case file written by the child.
+func copyCases(path string) {
+	b, err := os.ReadFile(path)
+	if err != nil {
+		return
+	}
+	for _, line := range strings.Split(string(b), "\n") {
+		f := strings.Split(line, "\t")
+		if len(f) == 4 && !strings.HasPrefix(line, "#") {
+			w.Case(f[0], f[1], f[2], f[3])
+		}
+	}
 }
